@@ -1056,6 +1056,17 @@ def c16(tier):
     for cfg in ({"k": "LaguerreRSI", "n": 5}, {"k": "CyberCycle", "n": 5}, {"k": "SuperSmoother", "n": 5}, {"k": "RoofingFilter", "n": 5, "m": 3},
                 {"k": "LaguerreFilter", "g": [4, 5]}, {"k": "EhlersFisherTransform", "n": 5, "c": [E, ema(4)]}, ema(20)):
         tail(cfg, rnd.choice([1234, 9991, 777, rnd.randint(101, 9999)]), 1200, 20)
+    # the recursive views in f32 on three-decade walks, step by step against their machines (1e-2 of the scale)
+    rec32 = []
+    for n in ((3, 16) if tier == "quick" else (3, 8, 16, 33)):
+        for cfg in (ema(n), {"k": "SuperSmoother", "n": n}, {"k": "RoofingFilter", "n": n, "m": 4}, {"k": "CyberCycle", "n": n}, {"k": "LaguerreRSI", "n": n},
+                    {"k": "TrendFlex", "n": n}, {"k": "ReFlex", "n": n}, {"k": "EhlersFisherTransform", "n": n, "c": [E, ema(4)]},
+                    {"k": "PolarizedFractalEfficiency", "n": max(n, 3), "c": [E, ema(4)]}, {"k": "Alma", "n": n}, {"k": "Cumulative", "n": n}):
+            rec32.append({"cfg": cfg, "unit": 1000, "mode": "machine", "eps": [1, 100], "float": "f32",
+                          "xs": walk(rnd, 600 if tier == "quick" else 3000, 10, 10000, 400, grain=10), "k": 3})
+    rec32.append({"cfg": {"k": "LaguerreFilter", "g": [4, 5]}, "unit": 1000, "mode": "machine", "eps": [1, 100], "float": "f32",
+                  "xs": walk(rnd, 600, 10, 10000, 400, grain=10), "k": 3})
+    run.submit(p3_stream_job, "f32-recursive", "C16", rec32)
     run.submit(p3_stream_job, "flat-tail-a", "C16", tails[:len(tails) // 2])
     run.submit(p3_stream_job, "flat-tail-b", "C16", tails[len(tails) // 2:])
     run.assumptions.append("the specification has no model of IEEE rounding: rounding effects are only observed on the recorded streams (seeded), not explored")
